@@ -494,6 +494,10 @@ func propC09(j *Job) {
 			}
 		}
 	}
+	// ABORT while the other side is still inside its connect call
+	for _, b := range bases[:2] { // (two clients complete each other's handshake without COOKIE-ACKs)
+		j.Explore(fmt.Sprintf("AH/%s", b.name), abortDuringConnectScenario(b.a, b.b), Budget{}, nil)
+	}
 	// a blocking write made from the buffered-amount callback, ended by Close / Abort
 	for bi, b := range bases {
 		if bi == 2 {
@@ -711,6 +715,61 @@ func callbackWriterScenario(a, b epCfg, x string) *Scenario {
 			(&wconn{w: m.W, id: 0}).Close()
 			(&wconn{w: m.W, id: 1}).Close()
 			m.WaitUntil("all-back", 3*time.Second, func() bool { return rd.Done && xt.Done })
+		},
+		Final: func(m *Sim, x *Exec) { generalVerdicts(m, x, true) },
+	}
+}
+
+// abortDuringConnectScenario: the answering side is established (it has the COOKIE-ECHO), the
+// connecting side is not yet (every COOKIE-ACK is lost) when the established side aborts.  The
+// connect call of the other side ends with an error that carries the abort cause.
+func abortDuringConnectScenario(a, b epCfg) *Scenario {
+	return &Scenario{
+		Name:    "abort-during-connect",
+		Horizon: 120 * time.Second,
+		Setup: func(m *Sim) {
+			m.W.killFn = func(p *wpkt) bool {
+				if p.dec == nil || p.from != 1 {
+					return false
+				}
+				for _, c := range p.dec.Chunks {
+					if c.Typ == wCOOKIEACK {
+						return true
+					}
+				}
+				return false
+			}
+		},
+		Body: func(m *Sim) {
+			ta := m.Go("connA", func() { m.Dial(0, a) })
+			tb := m.Go("connB", func() { m.Dial(1, b) })
+			m.S.Join(tb)
+			if m.As[1] == nil || m.Err[1] != nil {
+				m.Failf("connect", "the answering side did not get established: %v", m.Err[1])
+				m.closeFailedTransports()
+				m.CloseBoth()
+				return
+			}
+			m.Sleep(100 * time.Millisecond)
+			if ta.Done {
+				m.Failf("connect", "the connecting side finished without a COOKIE-ACK: %v", m.Err[0])
+			}
+			m.As[1].Abort("why")
+			ok := m.WaitUntil("connect-failed", 5*time.Second, func() bool { return ta.Done })
+			switch {
+			case !ok:
+				m.Failf("abort.peer", "the ABORT reached the connecting side but its connect call has not returned 5 s later")
+			case m.Err[0] == nil:
+				m.Failf("abort.peer", "the connect call succeeded after the peer had aborted")
+			default:
+				if e := m.Err[0].Error(); !strings.Contains(e, "User Initiated Abort") || !strings.Contains(e, "why") {
+					m.Failf("abort.cause", "the connect call of the side that received the ABORT failed with %q, which does not carry the abort cause", e)
+				}
+			}
+			m.closeFailedTransports()
+			m.CloseBoth()
+			(&wconn{w: m.W, id: 0}).Close()
+			(&wconn{w: m.W, id: 1}).Close()
 		},
 		Final: func(m *Sim, x *Exec) { generalVerdicts(m, x, true) },
 	}
